@@ -149,6 +149,44 @@ def search(ck, tier, seed):
                                    e["name"], direction, "the input" if k == 0 else "parameter %d" % (k - 1),
                                    " at x = %s" % bad if bad else ""), case)
                     break
+    # a training step (forward + backward, gradients enabled) followed by evaluation-mode back-propagation: statistics gathered
+    # in training mode are constants of the evaluation-mode function and must not drag the old graph along
+    from nflows.transforms import base as base_, lu as lu_, normalization as norm_
+    from nflows.flows.realnvp import SimpleRealNVP
+    def bn_models():
+        torch.manual_seed(seed)
+        yield "Composite(LULinear, BatchNorm)", base_.CompositeTransform([lu_.LULinear(3, identity_init=False), norm_.BatchNorm(3)]).double(), 3
+        torch.manual_seed(seed)
+        yield "SimpleRealNVP(batch norm between layers)", SimpleRealNVP(4, 8, 2, 1, batch_norm_between_layers=True).double(), 4
+    for name, mdl, D in bn_models():
+        g = tgen(seed, "c16bn", name)
+        ck.case(("c16-train-then-eval", name), nontrivial=True)
+        case = {"search": "train-then-eval", "model": name, "seed": seed}
+        mdl.train()
+        for _ in range(2):
+            xb = torch.randn(16, D, generator=g, dtype=torch.float64)
+            out = mdl.log_prob(xb) if hasattr(mdl, "log_prob") else sum(v.sum() for v in mdl(xb))
+            attempt(lambda: (out.sum() if out.dim() else out).backward())
+            mdl.zero_grad()
+        mdl.eval()
+        x = torch.randn(4, D, generator=g, dtype=torch.float64, requires_grad=True)
+
+        def f(xx):
+            return mdl.log_prob(xx).sum() if hasattr(mdl, "log_prob") else sum(v.sum() for v in mdl(xx))
+        params = [p_ for p_ in mdl.parameters() if p_.requires_grad]
+        gr = attempt(torch.autograd.grad, f(x), [x] + params, allow_unused=True)
+        if gr[0] != "ok":
+            ck.finding("gradient:eval-backward-fails-after-training-step:%s" % name, "%s: %s %s" % (name, gr[1], str(gr[2])[:160]), case)
+            continue
+        with torch.no_grad():
+            for k, (tn, gv) in enumerate(zip([x] + params, gr[1])):
+                i = tn.numel() // 2
+                d = fd_check(lambda: f(x.detach()), tn, [i])[0]
+                a = 0.0 if gv is None else float(gv.reshape(-1)[i])
+                if abs(a - d) > 1e-4 * (1 + abs(a) + abs(d)):
+                    ck.finding("gradient:eval-gradient-wrong-after-training-step:%s" % name,
+                               "%s: tensor %d entry %d: autograd %r, finite difference %r" % (name, k, i, a, d), case)
+                    break
     # flows: log_prob gradients w.r.t. parameters, inputs and context
     from nflows.flows.base import Flow
     from nflows.distributions import normal
